@@ -689,7 +689,12 @@ class TopoModel(Model):
             p.add_child_interface(name=ev[2], node_id=f'id-{ev[1][0]}-{ev[2]}', labels=Labels(vlan=ev[3]))
             self.handles['port'] = p
         elif k == 'sub_add_link':
-            t.add_link(name=ev[1], node_id='id-' + ev[1], ltype=LinkType[ev[3]], interfaces=self._ifs(ev[2]))
+            ifs = self._ifs(ev[2])
+            # the stub link is given its interfaces as a tuple (both sequence kinds are accepted), and the handle the
+            # call returns is used like any other
+            lk = t.add_link(name=ev[1], node_id='id-' + ev[1], ltype=LinkType[ev[3]], interfaces=tuple(ifs) if ev[1] == 'ls' else ifs)
+            if sorted(i.node_id for i in lk.interface_list) != sorted(i.node_id for i in ifs):
+                raise AssertionError(f'the handle add_link returned lists {[i.name for i in lk.interface_list]}')
         elif k == 'sub_remove_link':
             t.remove_link(ev[1])
         elif k == 'sub_remove_ns_interface':
@@ -1236,6 +1241,8 @@ def fail_events(model: TopoModel):
         if free:
             ev.append(('fail', 'link-non-interface', n0, model._pref(free[0])))
             ev.append(('fail', 'link-same-interface-twice', model._pref(free[0])))
+            # a port does not become a service port (nor cease to be one) by having its type rewritten
+            ev.append(('fail', 'type-to-service-port', model._pref(free[0])))
             if exp:
                 for how in ('number', 'generator-that-fails'):
                     ev.append(('fail', 'service-interfaces-not-a-list', how, model._pref(free[0])))
@@ -1244,6 +1251,7 @@ def fail_events(model: TopoModel):
                        if raw.typ(x) == 'ServicePort' and raw.owner(x) and not raw.owner(sorted(raw.owner(x))[0])]
                 for svc_name, port_name in sorted(spn)[:1]:
                     ev.append(('fail', 'link-over-service-port', svc_name, port_name, model._pref(free[0])))
+                    ev.append(('fail', 'type-from-service-port', svc_name, port_name))
         ev.append(('fail', 'node-duplicate-name', n0))
         ev.append(('fail', 'node-duplicate-id', nodes[n0].node_id))
         ev.append(('fail', 'facility-duplicate-name', n0))
@@ -1536,6 +1544,11 @@ def _do_fail(model: TopoModel, ev):
     elif kind == 'link-same-interface-twice':
         i = model.port(*ev[2])
         t.add_link(name='ltwice', node_id=nid('ltwice'), ltype=LinkType.Patch, interfaces=[i, i])
+    elif kind == 'type-to-service-port':
+        model.port(*ev[2]).set_property('type', InterfaceType.ServicePort)
+    elif kind == 'type-from-service-port':
+        sp = [i for i in model.service(ev[2]).interface_list if i.name == ev[3]][0]
+        sp.set_properties(type=InterfaceType.TrunkPort)
     elif kind == 'link-over-service-port':
         sp = [i for i in model.service(ev[2]).interface_list if i.name == ev[3]][0]
         t.add_link(name='lsp', node_id=nid('lsp'), ltype=LinkType.Patch, interfaces=[sp, model.port(*ev[4])])
@@ -1636,7 +1649,7 @@ GUARD_PROBES = {'node-duplicate-name', 'node-duplicate-id', 'facility-duplicate-
                 'service-duplicate-id', 'service-duplicate-name', 'component-duplicate-name', 'component-duplicate-id',
                 'storage-duplicate-name', 'sub-duplicate-name', 'sub-duplicate-vlan', 'peer-twice', 'link-duplicate-name',
                 'facility-duplicate-interface-names', 'type-outside-vocabulary', 'type-of-another-kind', 'link-non-interface', 'link-same-interface-twice',
-                'link-over-service-port', 'service-interfaces-not-a-list',
+                'link-over-service-port', 'service-interfaces-not-a-list', 'type-to-service-port', 'type-from-service-port',
                 'sub-duplicate-via-second-handle', 'sub-service-interface-twice-one-handle'}
 
 
